@@ -98,7 +98,7 @@ class Check(AddCheck):
     def full_obs(self, o, before):
         if 'classerr' in o:
             return ('classerr', o['classerr'])
-        return (err_class(o), o['tree'] == before)
+        return (err_class(o), (o['tree'] == before) if o.get('err') else None)
 
     def evaluate(self, cases, force_oracle=False):
         # obs_C05 needs the tree before the attempt: wrap obs per case
